@@ -1,4 +1,5 @@
 import AvroModel.Derive
+import AvroProofs.Lemmas.DeriveWf
 /-
 C17 - derived schemas.  `Avro.deriveSchema` is the model of `T::get_schema()` for a type defined in
 the type-definition language of `AvroModel/Derive.lean`; the correspondence check compares it, row
@@ -14,7 +15,15 @@ What is proved here, for every environment of definitions, every type and every 
 * `Option<T>` derives to `[null, T]` or panics, never anything else, and it panics exactly when the
   two-branch union is no legal union (`option_shape`);
 * a struct or plain enum whose name is already defined derives to a reference - it is never defined
-  twice on the path through one `named` set (`defined_name_gives_ref`).
+  twice on the path through one `named` set (`defined_name_gives_ref`);
+* `derive_wf_partial`: when the names the attributes produce are identifiers and distinct within each
+  record / enum (`DeriveEnvOk`, a decidable condition on the definitions; it is what the kebab-case
+  finding violates), every derived schema satisfies `wfP` - the well-formedness predicate every
+  schema accepted by the parser satisfies (C11): names, symbols and field names match the grammars,
+  field names are unique, unions obey the union rules, enum defaults are symbols.  The field names
+  `field_0, field_1, …` of tuple variants are proved to be distinct identifiers outright.  What
+  `wfP` does NOT say is that full names are defined once in the whole schema - that is exactly what
+  `variant_records_defined_twice` refutes.
 
 The full statement of C17 (the derived schema is well formed for every type) is FALSE of the code,
 and the three ways it fails are kernel-checked here on concrete definitions and replayed on the crate
@@ -198,6 +207,19 @@ theorem defined_name_gives_ref (env : DEnv) (fuel : Nat) (named : List PName) (n
     deriveTy env (fuel+1) named ns (.named ident) = some (.ref pn, named) := by
   simp [deriveTy, hfind, hname, hin]
 
+/-! ### local well-formedness -/
+
+theorem derive_wf_partial (env : DEnv) (henv : DeriveEnvOk env) (fuel : Nat) (ident : Bytes) (s : PSchema)
+    (h : deriveSchema env fuel ident = some s) : wfP s = true := by
+  unfold deriveSchema at h
+  cases hr : deriveTy env fuel [] none (.named ident) with
+  | none => simp [hr] at h
+  | some r =>
+    obtain ⟨s', n'⟩ := r
+    simp [hr] at h
+    subst h
+    exact deriveTy_good env henv fuel _ _ _ _ _ hr
+
 /-! ### the three ways the full statement fails (kernel-checked witnesses; known findings) -/
 
 def envOpt : DEnv :=
@@ -258,6 +280,11 @@ example :
           (⟨b!"others", none, [], none, []⟩, .array (.ref ⟨some b!"ns", b!"Suit"⟩) []),
           (⟨b!"next", none, [], some .null, []⟩, .union [.null, .ref ⟨some b!"ns", b!"T"⟩]) ] []) := by
   rfl
+
+/-- the hypothesis of `derive_wf_partial` holds of this environment, and fails of the kebab-case one -/
+example : DeriveEnvOk envOk := by unfold DeriveEnvOk; decide
+example : DeriveEnvOk envTwice := by unfold DeriveEnvOk; decide
+example : ¬ DeriveEnvOk envKebab := by unfold DeriveEnvOk; decide
 
 end C17
 end Avro
